@@ -198,21 +198,27 @@ theorem rk_all (cfg : ECfg) : ∀ f,
             · intro e s' h; cases h
         · refine rk_bind _ _ (rk_enVal _ _ _) (fun v => ?_)
           split
-          · split
+          · rename_i tid name _
+            split
             · exact rk_unsupported _
             · rename_i body _
-              exact rk_wrap (eval cfg [] f body) (macroEnter body) macroLeave macroRaise (fun _ _ => rfl) (fun _ _ => rfl)
+              exact rk_wrap (eval cfg [] f body) (macroEnter tid body) macroLeave macroRaise (fun _ _ => rfl) (fun _ _ => rfl)
           · exact rk_unsupported _
       | useInternal name =>
         simp only [eval]
         split
         · exact rk_unsupported _
-        · split
-          · exact rk_unsupported _
-          · rename_i body _
-            exact rk_wrap (eval cfg [] f body) (fun s => macroEnter body { s with x := { s.x with token := none } })
+        · rename_i nm
+          refine rk_of_at (fun s => ?_)
+          cases hb : lookupAssoc (cfg.macrosOf s.env.topFrame.tid) nm with
+          | none => constructor <;> intro _ _ h <;> simp [hb] at h
+          | some body =>
+            have hw := (rk_wrap (eval cfg [] f body) (fun s => macroEnter s.env.topFrame.tid body { s with x := { s.x with token := none } })
               (fun s s' => macroLeave { s with x := { s.x with token := none } } s')
-              (fun s s' => macroRaise { s with x := { s.x with token := none } } s') (fun _ _ => rfl) (fun _ _ => rfl)
+              (fun s s' => macroRaise { s with x := { s.x with token := none } } s') (fun _ _ => rfl) (fun _ _ => rfl)).at' s
+            constructor
+            · intro a s' h; simp only [hb] at h; exact hw.1 a s' h
+            · intro e s' h; simp only [hb] at h; exact hw.2 e s' h
       | codeBlock src => simp only [eval]; exact rk_unsupported _
     · intro al ns
       cases ns with
